@@ -12,7 +12,11 @@ import random
 import re._parser as sp
 import re._constants as sc
 
+import sys
+
 import z3
+
+sys.setrecursionlimit(max(sys.getrecursionlimit(), 100000))
 
 MAXCP = 0x10FFFF
 FAIL = -1
@@ -38,9 +42,13 @@ class ZDom:
         return self.c[i]
 
     def eq(self, a, v):
+        if isinstance(a, int):
+            return a == v
         return a == v
 
     def rng(self, a, lo, hi):
+        if isinstance(a, int):
+            return lo <= a <= hi
         return z3.And(a >= lo, a <= hi)
 
     def or_(self, xs):
@@ -736,7 +744,7 @@ def validate_translator(model, tier, seed, log=None):
 
 
 def model_string(m, chars):
-    return "".join(chr(m.eval(ch, model_completion=True).as_long()) for ch in chars)
+    return "".join(chr(ch) if isinstance(ch, int) else chr(m.eval(ch, model_completion=True).as_long()) for ch in chars)
 
 
 class Q:
